@@ -16,6 +16,10 @@ CLAIMS = {
          'Exploration: used == sum of accounted costs, RemainingCost() == MaxCost - used, accounted cost of every key == its fixed cost (+ internal overhead), RemainingCost() >= 0 at drained points and in a concurrent sampler in histories without cost-raising overwrites; cost sources explicit / Config.Cost / internal cost on and off, UpdateMaxCost raises.', '5/C03'),
  'C04': ('offline per-value life-cycle automaton over a recorded event log (issued -> accepted|refused -> (evict|reject)? -> exit) from free-running stress with delay injection; race-detector build',
          'Exploration: every accepted value exits exactly once by the return of the next Clear/Close called after its Set returned, refused values reach no callback, OnEvict/OnReject at most once and followed by OnExit, no hit after exit; write-buffer sizes 1..32768, all capacities, TTLs, ShouldUpdate refusals, concurrent Clear.', '5/C04'),
+ 'C05': ('reference-model monitor in lock-step with the single-stepped applier (gate hook): exhaustive enumeration of write prefixes x applier lags before Del, random gated sequences; callbacks compared per operation',
+         'Exploration with a completely enumerated sub-space: every prefix over {Set, SetWithTTL, apply-one, Get} of length <= 4 on a key, then Del, every {apply-one, Get} suffix of length <= 2, then Wait and Gets, for two write-buffer sizes; plus random gated sequences with more Dels. Get must miss after Del;Wait until the next Set, and the deleted value must be passed to OnExit exactly once.', '5/C05'),
+ 'C06': ('reference-model monitor (map + explicit FIFO of pending writes) driven in lock-step with the applier, which is single-stepped through the vpApplierItem hook so that lag is an explicit integer; Wait early-return probe',
+         'Exploration: thousands of random single-client sequences of Set/SetWithTTL/Del/Get/GetTTL/IterValues/Wait/Clear with "apply n items" steps in between; every Get/GetTTL/IterValues result and the white-box map contents must equal the model; Wait must not return before the items buffered ahead of its marker are applied.', '5/C06'),
  'C10': ('differential reference-model monitor (map[uint64]uint64) over generated Set/DeleteBelow/IterateKV-rewrite/Reset histories, six page sizes, checkptr build',
          'Exploration: after every operation the touched keys, and periodically every key ever used plus the IterateKV multiset, are compared with a reference map; thresholds are tied to existing values so that leaf maxima are hit; histories cross node splits, page recycling and growth of the 1 MiB buffer.', '5/C10'),
  'C11': ('differential reference-model monitor ([]byte / [][]byte) over the four buffer kinds, sortedness + permutation oracle for the sorter, checkptr build',
@@ -24,6 +28,8 @@ CLAIMS = {
          'Exploration: epochs of 1..64 goroutines allocating sizes that straddle chunk boundaries on one allocator, with Reset and TrimTo;Reset between epochs; all handed-out intervals are sorted and checked for overlap and every pattern is re-read. TrimTo is only issued immediately before Reset (the AllocatorPool protocol): using an allocator after TrimTo without Reset hands out freed memory by construction and is outside the statement.', '5/C12'),
  'C13': ('quiescent-point assertion monitor: white-box snapshot invariants (policy key set == map key set, used == sum) and IterValues multiset vs snapshot; empty-cache clause after delete-all / clear / expire-and-sweep; race-detector build',
          'Exploration: at every barrier (clients parked, Wait, applier paused by its own stop/done handshake) the snapshot taken under the cache\'s own locks must satisfy I1/I2 and IterValues must yield exactly the unexpired resident values once and stop when asked.', '5/C13'),
+ 'C15': ('post-condition assertions after Clear/Close in gated sequential histories (model predicts exact callbacks), goroutine-profile monitor, bounded-return probes for calls on a closed cache',
+         'Exploration: histories that leave resident entries, buffered new items, buffered updates, buffered tombstones, pending Wait markers (blocked helper goroutines) and TTL entries at the moment of Clear/Close (the number of items applied before the applier stops is observed, not predicted); after Clear: empty snapshot, RemainingCost == MaxCost, metrics zero, waiters released, new writes served; after Close: Set false, Get miss, Del/Wait/Clear/Close return, no processItems goroutine left, every held or buffered value released exactly once.', '5/C15'),
  'C16': ('C10 differential monitor carried across clean close + reopen of a persistent tree, Stats equality, recycled-page reuse assertion, checkptr build',
          'Exploration: Set/DeleteBelow histories on a file-backed tree, closed and reopened at random points, right after DeleteBelow recycled pages, at page-count boundaries of the mapped file, right after creation and at the end; contents, Stats (all but Allocated) and subsequent behaviour are compared with the reference.', '5/C16'),
  'C17': ('quiescent-point conservation checker: Metrics counters vs harness-side per-goroutine counters and the white-box snapshot; race-detector build',
